@@ -213,7 +213,10 @@ def s2(model: Model, rep: Report):
             if sup:
                 want = ("call", ("attr", ("sub", ("attr", s, "factory_lookup"), ("call", "type", (op,), ())), "construct"), (op,), ())
                 got = [(list(c[2]) + [v for _, v in c[3]]) for c in apps]
-                if len(apps) != 1 or got[0] != [want]:
+                def same_call(a, b):
+                    # positional and keyword spelling of the one argument are the same call
+                    return a[0] == "call" and a[1] == b[1] and (list(a[2]) + [v for _, v in a[3]]) == (list(b[2]) + [v for _, v in b[3]])
+                if len(apps) != 1 or len(got[0]) != 1 or not same_call(got[0][0], want):
                     problems.append(f"[{case}] {len(apps)} appends: {[show(c) for c in apps]}")
             elif apps:
                 problems.append(f"[{case}] an unsupported operation is appended")
@@ -263,11 +266,18 @@ def _instr(v: Term) -> Optional[Dict[str, Term]]:
     return kw
 
 
-def _recs(t: Optional[Term]) -> Optional[List[Term]]:
-    if t is None or t[0] != "list":
+def _recs(t: Optional[Term], path=None) -> Optional[List[Term]]:
+    if t is None:
+        return None
+    if path is not None:
+        from ..listflow import concrete_list
+        items = concrete_list(path, t)
+    else:
+        items = list(t[1]) if t[0] == "list" else None
+    if items is None:
         return None
     out = []
-    for x in t[1]:
+    for x in items:
         if x[0] == "call" and x[1] == ("attr", ("global", "stim"), "target_rec") and len(x[2]) == 1:
             out.append(x[2][0])
         else:
@@ -282,7 +292,10 @@ def s4(model: Model, rep: Report):
     D = model.cls("DetectorOperation")
     f = D.resolve("to_stim_instruction")
     ev = Evaluator(model)
-    outs = ev.eval_function(f, self_cls=D)
+    try:
+        outs = [q for q in PathEnumerator(ev).function_paths(f, self_cls=D) if q.exit in ("return", "raise", "fall")]
+    except Unsupported as e:
+        raise AnalysisError(f"DetectorOperation.to_stim_instruction: {e}")
     s = sym(f.self_name)
     A = {n: ("attr", s, n) for n in ("main_target", "secondary_target", "reference_offset", "secondary_offset", "last_acquisition_index", "qubit_index")}
     atoms = {n: t_cmp("is", A[n], NONE) for n in ("main_target", "secondary_target", "reference_offset", "secondary_offset")}
@@ -308,14 +321,16 @@ def s4(model: Model, rep: Report):
                 raise AnalysisError(f"DetectorOperation.to_stim_instruction: guard not decidable from None-ness: {show(c)}")
         case = f"main={'set' if has_m else 'None'}, secondary={'set' if has_s else 'None'}, ref_offset={'set' if has_r else 'None'}, sec_offset={'set' if has_so else 'None'}"
         n += 1
-        if len(hit) != 1 or hit[0].kind != "return":
+        if len(hit) != 1 or hit[0].exit != "return":
             rep.fail("C08.S4", f"DetectorOperation.to_stim_instruction[{case}]", f.loc, found=f"{len(hit)} outcomes", required="exactly one instruction", what="target-shape cases are not a partition", detail=f"partition:{case}")
             continue
         ins = _instr(hit[0].value)
         if ins is None:
             rep.fail("C08.S4", f"DetectorOperation.to_stim_instruction[{case}]", f.loc, found=show(hit[0].value), required="a stim.CircuitInstruction", what="no instruction produced", detail=f"shape:{case}")
             continue
-        recs = _recs(ins.get("targets"))
+        recs = _recs(ins.get("targets"), hit[0])
+        if recs is not None:
+            recs = [subst(r, mp) for r in recs]
         if has_m and has_s and has_r:
             want = [m, sc, ref] + ([t_add(ref, A["secondary_offset"], -1)] if has_so else [])
         elif has_m:
@@ -325,7 +340,10 @@ def s4(model: Model, rep: Report):
             want = []
         ok = ins.get("name") == ("const", "DETECTOR") and recs == want
         if want:
-            ok = ok and ins.get("gate_args") == ("list", (A["qubit_index"], lin({}, Fraction(0))))
+            ga = ins.get("gate_args")
+            while ga is not None and ga[0] == "var":
+                ga = ga[3]
+            ok = ok and ga == ("list", (A["qubit_index"], lin({}, Fraction(0))))
         rep.check(ok, "C08.S4", f"DetectorOperation.to_stim_instruction[{case}]", f.loc, found=f"{show(ins.get('name'))} rec{[show(r) for r in recs] if recs is not None else show(ins.get('targets'))} args {show(ins.get('gate_args')) if ins.get('gate_args') else None}",
                   required=f"DETECTOR rec{[show(w) for w in want]}" + (" args [qubit_index, 0]" if want else ""),
                   what="the detector points at other measurement records than its offsets say", detail=f"offsets:{case}")
